@@ -44,7 +44,7 @@ NAMES6 = ["uint8", "int64", "float32", "bfloat16", "complex64", "my_dtype"]
 REGEXES = [r"int", r"float(16|32)$", r"u?int(8|16)$"]
 # strings no library defines: the statement is silent on built-ins (don't-care, but the
 # same verdict from every duck spelling); user categories go by name
-STRESS = ["", "float", "int", "uint", "complex", "float320", "xint8", "int8x", "bfloat", "float8"]
+STRESS = ["", "float", "int", "uint", "complex", "float320", "xint8", "int8x", "bfloat", "float8", "FLOAT16", "Float32", "INT8", "BF16", "ULONG"]
 CUSTOM = ["my_dtype"]  # the documentation's own example of a custom dtype: in no built-in category but Shaped
 KEY_IMPLS_FALLBACK = ["threefry2x32", "rbg", "unsafe_rbg"]
 
@@ -169,6 +169,14 @@ def category_specs(exported):
     specs.append(dict(t="user", form="list", strs=[], res=[REGEXES[1]]))
     specs.append(dict(t="user", form="list", strs=[], res=[REGEXES[2]]))
     specs.append(dict(t="user", form="list", strs=["uint8"], res=[REGEXES[1]]))
+    # two user categories with THE SAME class name and different dtypes (subscripted with the same
+    # array type and shape string, one after the other)
+    specs.append(dict(t="user", form="list", strs=["int16", "float16"], res=[], clsname="Namesake"))
+    specs.append(dict(t="user", form="list", strs=["int8"], res=[], clsname="Namesake"))
+    specs.append(dict(t="user", form="list", strs=["float32"], res=[], clsname="Float"))  # namesake of a built-in
+    # a plain string next to a pattern that carries a flag of its own
+    specs.append(dict(t="user", form="list", strs=["float16"], res=["(?i)bf(loat)?16$"]))
+    specs.append(dict(t="user", form="list", strs=[], res=["int(8|16)$", "(?i)u?long(long)?$"]))
     # user categories that derive from an existing category instead of AbstractDtype directly
     # (specs come AFTER the built-ins, so the base category has always been used first)
     for base, strs in (("Float", ["float32", "float64"]), ("Integer", ["int8", "uint8"]), ("Shaped", ["bool"]), ("Int", ["float16"])):
@@ -184,7 +192,7 @@ def cat_name(s):
     if s["t"] == "struct":
         return f"Struct[S{s['i']}]"
     body = "|".join([f"re:{r}" for r in s["res"]] + list(s["strs"]))
-    return f"User[{s['form']}:{body}]" + (f"({s['base']})" if s.get("base") else "")
+    return f"User[{s['form']}:{body}]" + (f"({s['base']})" if s.get("base") else "") + (f"<named {s['clsname']}>" if s.get("clsname") else "")
 
 
 def exported_categories():
@@ -228,7 +236,7 @@ def category_class(spec):
             val = tuple(items)
         else:
             val = list(items)
-        c = type("U" + k, (getattr(jaxtyping, spec["base"]) if spec.get("base") else jaxtyping.AbstractDtype,), {"dtypes": val})
+        c = type(spec.get("clsname") or ("U" + k), (getattr(jaxtyping, spec["base"]) if spec.get("base") else jaxtyping.AbstractDtype,), {"dtypes": val})
     _CLS_CACHE[k] = c
     return c
 
